@@ -133,6 +133,8 @@ CallOK(C, E, j) ==
            [] k = "overlap_step" -> OverlapStepOK(C, E, c) \/ Reject(j, k, "stepwise overlapping differs")
            [] k = "probe" -> ProbeOK(C, E, j, c)
            [] k = "work" -> WorkOK(C, E, j, c)
+           [] k = "debug_eq" -> CRes(c)[1] = CRes(c)[2]
+                              \/ Reject(j, k, "the top-level searcher's automaton differs from the low-level automaton built with the same options")
            [] k = "same" -> CRes(c)[1] = TRUE
                               \/ Reject(j, k, "the searcher's table changed while it was being searched")
            [] k = "occ" ->
